@@ -113,7 +113,7 @@ CHECKS = {
     "C09": {
         "engine": "input-enum", "category": "model_checking", "design_ref": "DESIGN.md §2 C09",
         "technique": "bounded-exhaustive enumeration of tag x context x body; body read back between sentinels, tree structure compared with the plain-body structure, protect/restore round trip",
-        "text": SMALL_SCOPE + "6 opaque tags x 19 embedding contexts (top, list item, table cell, caption, bold, positional/named template argument, template body, parser-function branches, lc/uc arguments, behind ignored tags, inside re-parsed <ref>/<poem> bodies, beside braces nested too deep to expand) x every body over a 50-lexeme markup alphabet up to length 2 (quick) / 3 (thorough); "
+        "text": SMALL_SCOPE + "6 opaque tags x 19 embedding contexts (top, list item, table cell, caption, bold, positional/named template argument, template body, parser-function branches, lc/uc arguments, behind ignored tags, inside re-parsed <ref>/<poem> bodies, beside braces nested too deep to expand) x every body over a 55-lexeme markup alphabet up to length 2 (thorough: plus every body of length 3 over a 24-lexeme subset); "
                 "plus functions that consume their argument (urlencode, anchorencode, pad fill): no debris of a marker may reach the document; "
                 "the text between two sentinels must be exactly the body (entities decoded for nowiki/pre), the tree must have the structure it has with a plain-word body, and replace_uniq(replace_tags(s)) == s.",
         "note": "two known findings are reported as KNOWN-FINDING (include tags processed inside opaque tags; <nowiki> stripped inside <pre>); bodies containing those lexemes are attributed to them.",
